@@ -486,7 +486,10 @@ class DatasetProcessor:
             fname = read_group_lock_filename(sample)
             if os.path.exists(fname):
                 os.remove(fname)
-            prepare_read_groups(self.args, sample)
+            if not self.args.read_assignments:
+                # the per-chromosome read group tables are only needed while reads are collected: saved read
+                # assignments carry their groups, and there are no BAM files to split the table by
+                prepare_read_groups(self.args, sample)
             open(fname, "w").close()
 
         if self.args.read_assignments:
